@@ -424,15 +424,40 @@ func (h *Header) SetExtension(id uint8, payload []byte) error { //nolint:gocogni
 	}
 
 	// No existing header extensions
-	h.Extension = true
+	profile := h.ExtensionProfile
 
 	switch payloadLen := len(payload); {
 	case payloadLen <= 16:
-		h.ExtensionProfile = extensionProfileOneByte
+		profile = extensionProfileOneByte
 	case payloadLen > 16 && payloadLen < 256:
-		h.ExtensionProfile = extensionProfileTwoByte
+		profile = extensionProfileTwoByte
 	}
 
+	// The first extension has to be valid for the profile it selects as well,
+	// leave the header untouched if it is not.
+	switch profile {
+	case extensionProfileOneByte:
+		if id < 1 || id > 14 {
+			return fmt.Errorf("%w actual(%d)", errRFC8285OneByteHeaderIDRange, id)
+		}
+		if len(payload) == 0 || len(payload) > 16 {
+			return fmt.Errorf("%w actual(%d)", errRFC8285OneByteHeaderSize, len(payload))
+		}
+	case extensionProfileTwoByte:
+		if id < 1 {
+			return fmt.Errorf("%w actual(%d)", errRFC8285TwoByteHeaderIDRange, id)
+		}
+		if len(payload) > 255 {
+			return fmt.Errorf("%w actual(%d)", errRFC8285TwoByteHeaderSize, len(payload))
+		}
+	default: // RFC3550 Extension
+		if id != 0 {
+			return fmt.Errorf("%w actual(%d)", errRFC3550HeaderIDRange, id)
+		}
+	}
+
+	h.Extension = true
+	h.ExtensionProfile = profile
 	h.Extensions = append(h.Extensions, Extension{id: id, payload: payload})
 
 	return nil
